@@ -569,6 +569,9 @@ func (h *c14H) run(sc c14Scn, id string) {
 						h.stats["d16_fresh_staple_under_maintenance_key_at_restart"]++
 						if persTok == "a" || !strings.HasPrefix(persTok, "g:1:1") {
 							h.stats["d16_restart_cannot_see_it"]++
+							// a still-fresh persisted staple is not reused after a restart (repaired by the D16
+							// `fix:` commit: both paths now derive the key from the re-encoded chain)
+							h.o.Mon("C14 fresh-staple-not-reused-after-restart", map[string]any{"case": id, "load_key": loadKey, "maintenance_key": maintKey})
 						}
 					}
 				}
